@@ -495,8 +495,12 @@ func xProg(id string, kind int) *hs.Prog {
 	switch kind {
 	case 3, 4: // rows then complete
 		st.Ops = []hs.Op{row(0), row(1), {K: "complete", Tag: "SELECT 2 " + id}}
-	case 5, 6: // fail before rows
-		st.Ops = []hs.Op{{K: "err", Err: &hs.ErrSpec{Base: "early failure " + id, Cause: xCause(id), Wraps: []hs.Wrap{{K: 'c', S: "22012"}}}}}
+	case 5, 6: // fail before rows (whatever severity the error is decorated with: a failure is a failure)
+		ws := []hs.Wrap{{K: 'c', S: "22012"}}
+		if sev := []string{"", "", "WARNING", "NOTICE", "LOG", "INFO", "DEBUG", "FATAL", "PANIC"}[core.H64("sev"+id)%9]; sev != "" {
+			ws = append(ws, hs.Wrap{K: 's', S: sev})
+		}
+		st.Ops = []hs.Op{{K: "err", Err: &hs.ErrSpec{Base: "early failure " + id, Cause: xCause(id), Wraps: ws}}}
 	case 7, 8: // fail after rows
 		st.Ops = []hs.Op{row(0), {K: "err", Err: &hs.ErrSpec{Base: "late failure " + id, Cause: xCause("l" + id), Wraps: []hs.Wrap{{K: 'c', S: "22003"}, {K: 's', S: "ERROR"}}}}}
 	case 9, 10: // panic inside the statement function
